@@ -122,6 +122,10 @@ Theorem C03_edit_dist_normalised :
 Proof. exact edit_dist_norm_spec. Qed.
 Print Assumptions C03_edit_dist_normalised.
 
+Example C03_edit_dist_normalised_instance :
+  edit_dist_norm [1; 2; 3]%Z [1; 3]%Z = Some (1 # 3)%Q /\ edit_dist_norm [] [] = None.
+Proof. split; vm_compute; reflexivity. Qed.
+
 (* Self-distance: for EVERY shipped sound-class model with a scoring matrix (the list
    [shipped_scorers] and its finite obligation are regenerated from /repo/src/lingpy/data/models/*/matrix
    on every run), every word over the model's inventory (classes in the range of its converter), every
